@@ -32,6 +32,13 @@ Transformations (each exact, see the function's docstring for the side condition
   unnest       if a: if b: X            ->  if a and b: X
   loop2comp    x = []; for..: x.append  ->  x = [.. for ..]
   reorder      a = <pure>; b = <pure>   ->  b = ...; a = ...        (independent, names/constants only)
+  elsereturn   if c: ..jump; REST       ->  if c: ..jump else: REST
+  returnnone   return                   <-> return None
+  intuple      x in [a, b]              <-> x in (a, b)
+  isinstancetuple  isinstance(a, X) or isinstance(a, Y) <-> isinstance(a, (X, Y))
+  dictcall     {"k": v}                 ->  dict(k=v)
+  constname    f(x, "lit")              ->  _mm_c = "lit"; f(x, _mm_c)
+  comp2loop    x = [e for v in it]      ->  x = []; for v in it: x.append(e)
 
 `-t a+b+c` applies several transformations one after the other to the same tree.
 
@@ -640,13 +647,193 @@ def t_reorder(tree, ctx, model=None):
                     i += 1
 
 
+def t_elsereturn(tree, ctx, model=None):
+    """if c: ...jump      ->  if c: ...jump
+       REST                   else: REST          (inverse of flatten)"""
+    for fn in _funcs(tree):
+        for blk in _blocks(fn):
+            i = 0
+            while i < len(blk):
+                s = blk[i]
+                if isinstance(s, ast.If) and not s.orelse and \
+                        _ends_in_jump(s.body) and i + 1 < len(blk) and \
+                        not any(isinstance(x, (ast.FunctionDef, ast.ClassDef))
+                                for x in blk[i + 1:]):
+                    s.orelse = blk[i + 1:]
+                    del blk[i + 1:]
+                    ctx.count += 1
+                i += 1
+
+
+def t_returnnone(tree, ctx, model=None):
+    """bare `return` <-> `return None`"""
+    for n in ast.walk(tree):
+        if isinstance(n, ast.Return):
+            if n.value is None:
+                n.value = ast.Constant(value=None)
+                ctx.count += 1
+            elif isinstance(n.value, ast.Constant) and n.value.value is None:
+                n.value = None
+                ctx.count += 1
+
+
+def t_intuple(tree, ctx, model=None):
+    """x in [a, b] <-> x in (a, b): membership in a list display and in a
+    tuple display compare the same elements in the same order"""
+    for n in ast.walk(tree):
+        if isinstance(n, ast.Compare) and len(n.ops) == 1 and \
+                isinstance(n.ops[0], (ast.In, ast.NotIn)):
+            c = n.comparators[0]
+            if isinstance(c, ast.List) and c.elts:
+                n.comparators[0] = ast.Tuple(elts=c.elts, ctx=ast.Load())
+                ctx.count += 1
+            elif isinstance(c, ast.Tuple) and c.elts:
+                n.comparators[0] = ast.List(elts=c.elts, ctx=ast.Load())
+                ctx.count += 1
+
+
+def t_isinstancetuple(tree, ctx, model=None):
+    """isinstance(a, X) or isinstance(a, Y) -> isinstance(a, (X, Y)) for a
+    plain name a; and the other way round"""
+    class T(ast.NodeTransformer):
+        def visit_BoolOp(self, n):
+            self.generic_visit(n)
+            if isinstance(n.op, ast.Or) and len(n.values) == 2 and all(
+                    isinstance(v, ast.Call) and isinstance(v.func, ast.Name)
+                    and v.func.id == "isinstance" and len(v.args) == 2 and
+                    isinstance(v.args[0], ast.Name) and
+                    isinstance(v.args[1], (ast.Name, ast.Attribute))
+                    for v in n.values) and \
+                    n.values[0].args[0].id == n.values[1].args[0].id:
+                ctx.count += 1
+                return ast.copy_location(ast.Call(
+                    func=ast.Name(id="isinstance", ctx=ast.Load()),
+                    args=[n.values[0].args[0], ast.Tuple(
+                        elts=[n.values[0].args[1], n.values[1].args[1]],
+                        ctx=ast.Load())], keywords=[]), n)
+            return n
+
+        def visit_Call(self, n):
+            self.generic_visit(n)
+            if isinstance(n.func, ast.Name) and n.func.id == "isinstance" and \
+                    len(n.args) == 2 and isinstance(n.args[0], ast.Name) and \
+                    isinstance(n.args[1], ast.Tuple) and \
+                    len(n.args[1].elts) == 2:
+                ctx.count += 1
+                return ast.copy_location(ast.BoolOp(op=ast.Or(), values=[
+                    ast.Call(func=ast.Name(id="isinstance", ctx=ast.Load()),
+                             args=[copy.deepcopy(n.args[0]), e], keywords=[])
+                    for e in n.args[1].elts]), n)
+            return n
+    T().visit(tree)
+
+
+def t_dictcall(tree, ctx, model=None):
+    """{"k": v, ...} with identifier string keys -> dict(k=v, ...)"""
+    import keyword
+
+    class T(ast.NodeTransformer):
+        def visit_Dict(self, n):
+            self.generic_visit(n)
+            if n.keys and all(
+                    isinstance(k, ast.Constant) and isinstance(k.value, str)
+                    and k.value.isidentifier() and
+                    not keyword.iskeyword(k.value) for k in n.keys) and \
+                    len({k.value for k in n.keys}) == len(n.keys):
+                ctx.count += 1
+                return ast.copy_location(ast.Call(
+                    func=ast.Name(id="dict", ctx=ast.Load()), args=[],
+                    keywords=[ast.keyword(arg=k.value, value=v)
+                              for k, v in zip(n.keys, n.values)]), n)
+            return n
+    for fn in _funcs(tree):
+        if "dict" in _names(fn):
+            continue
+        T().visit(fn)
+
+
+def t_constname(tree, ctx, model=None):
+    """a string constant passed as an argument of a call statement gets a
+    name first: f(x, "lit") -> _mm_c = "lit"; f(x, _mm_c)"""
+    for fn in _funcs(tree):
+        taken = _names(fn)
+        for blk in _blocks(fn):
+            i = 0
+            while i < len(blk):
+                s = blk[i]
+                c = s.value if isinstance(s, (ast.Expr, ast.Assign, ast.Return)) \
+                    and isinstance(getattr(s, "value", None), ast.Call) else None
+                if c is not None and not (isinstance(c.func, ast.Attribute) and
+                                          isinstance(c.func.value, ast.Name) and
+                                          c.func.value.id in ("logger",
+                                                              "logging")):
+                    for k, a in enumerate(c.args):
+                        if isinstance(a, ast.Constant) and \
+                                isinstance(a.value, str) and len(a.value) > 2:
+                            nm = ctx.fresh("c", taken)
+                            taken.add(nm)
+                            blk.insert(i, ast.Assign(
+                                targets=[ast.Name(id=nm, ctx=ast.Store())],
+                                value=a, lineno=s.lineno))
+                            c.args[k] = ast.Name(id=nm, ctx=ast.Load())
+                            ctx.count += 1
+                            i += 1
+                            break
+                i += 1
+
+
+def t_comp2loop(tree, ctx, model=None):
+    """x = [e for v in it if c]  ->  x = []; for v in it: if c: x.append(e)
+    when v is not a name of the function outside the comprehension"""
+    for fn in _funcs(tree):
+        for blk in _blocks(fn):
+            i = 0
+            while i < len(blk):
+                s = blk[i]
+                if isinstance(s, ast.Assign) and len(s.targets) == 1 and \
+                        isinstance(s.targets[0], ast.Name) and \
+                        isinstance(s.value, ast.ListComp) and \
+                        len(s.value.generators) == 1 and \
+                        not s.value.generators[0].is_async:
+                    g = s.value.generators[0]
+                    x = s.targets[0].id
+                    tn = {n.id for n in ast.walk(g.target)
+                          if isinstance(n, ast.Name)}
+                    inside = {id(n) for n in ast.walk(s.value)}
+                    clash = any(isinstance(n, ast.Name) and n.id in tn and
+                                id(n) not in inside for n in ast.walk(fn)) or \
+                        any(a.arg in tn for a in ast.walk(fn)
+                            if isinstance(a, ast.arg))
+                    reads_x = any(isinstance(n, ast.Name) and n.id == x
+                                  for n in ast.walk(s.value))
+                    if not clash and not reads_x:
+                        body = [ast.Expr(value=ast.Call(func=ast.Attribute(
+                            value=ast.Name(id=x, ctx=ast.Load()), attr="append",
+                            ctx=ast.Load()), args=[s.value.elt], keywords=[]))]
+                        for cnd in reversed(g.ifs):
+                            body = [ast.If(test=cnd, body=body, orelse=[])]
+                        for n in ast.walk(g.target):
+                            if isinstance(n, (ast.Name, ast.Tuple, ast.List)):
+                                n.ctx = ast.Store()
+                        loop = ast.For(target=g.target, iter=g.iter, body=body,
+                                       orelse=[], lineno=s.lineno)
+                        s.value = ast.List(elts=[], ctx=ast.Load())
+                        blk.insert(i + 1, loop)
+                        ctx.count += 1
+                        i += 1
+                i += 1
+
+
 TRANSFORMS = {"reformat": t_reformat, "swap": t_swap, "mirror": t_mirror,
               "temptest": t_temptest, "tempret": t_tempret,
               "temparg": t_temparg, "rename": t_rename, "flatten": t_flatten,
               "andsplit": t_andsplit, "inlinetemp": t_inlinetemp,
               "kwargs": t_kwargs, "guard": t_guard, "demorgan": t_demorgan,
               "ifexp": t_ifexp, "unnest": t_unnest, "loop2comp": t_loop2comp,
-              "reorder": t_reorder}
+              "reorder": t_reorder, "elsereturn": t_elsereturn,
+              "returnnone": t_returnnone, "intuple": t_intuple,
+              "isinstancetuple": t_isinstancetuple, "dictcall": t_dictcall,
+              "constname": t_constname, "comp2loop": t_comp2loop}
 
 
 # ---------------------------------------------------------------- machinery
@@ -677,6 +864,7 @@ def rewrite(wt, mods, tname, model):
         before = ctx.count
         for one in tname.split("+"):
             TRANSFORMS[one](tree, ctx, model)
+            ast.fix_missing_locations(tree)
         if ctx.count == before and "reformat" not in tname:
             continue
         ast.fix_missing_locations(tree)
